@@ -3,7 +3,7 @@
 
     Modelled code (line numbers of /repo at the time of writing):
       src/finam/data/tools/info.py   Info.__init__/mask setter 49-102, copy_with 125-155, accepts 157-201
-      src/finam/data/tools/mask.py   masks_compatible 243-285, masks_equal 288-332, mask_specified 364-378
+      src/finam/data/tools/mask.py   masks_compatible 243-285, masks_equal 288-335, mask_specified 367-381
       src/finam/data/grid_base.py    Grid.compatible_with 193-230, StructuredGrid.compatible_with 402-438,
                                      __eq__ 440-447, to_canonical 500-531;  grid_spec.py NoGrid 71-90
       src/finam/sdk/output.py        Output.get_info 363-429, push_data gate 173-174, get_data gate 259-262
@@ -161,7 +161,8 @@ Definition masks_equal (this other : option mask) (tg og : option gridspec) : op
                                    | Some cb => Some (shape_eqb (bits_shape ca) (bits_shape cb) && bits_eqb ca cb)
                                    end
                       end
-                  | _, _ => Some true          (* mask.py 326-327 *)
+                  | _, _ =>                    (* mask.py 326-330 (repaired): no layout to refer to *)
+                      Some (shape_eqb (bits_shape a) (bits_shape b) && bits_eqb a b)
                   end
          | _, _ => Some false
          end
@@ -216,6 +217,14 @@ Definition info_consistent (i : info) : bool :=
   match i_mask i, i_grid i with
   | Some (MBits b), Some g => shape_eqb (g_shape g) (bits_shape b)
   | _, _ => true
+  end.
+
+Definition bits_size (b : bits) : nat :=
+  match b with B1 l => length l | B2 rows => fold_right (fun r n => (length r + n)%nat) 0%nat rows end.
+Definition mask_fits_size (m : option mask) (g : gridspec) : bool :=
+  match m with
+  | Some (MBits b) => Nat.eqb (bits_size b) (fold_right Nat.mul 1%nat (g_shape g))
+  | _ => true
   end.
 
 (** Info.accepts (info.py 157-201).  [XOther] when to_canonical raises. *)
@@ -273,7 +282,8 @@ Definition fill_info (static : bool) (oi req : info) : xres info :=
   match orelse (i_grid oi) (i_grid req) with
   | None => XMeta
   | Some g =>
-    if negb (is_some (i_time oi)) && negb static && negb (is_some (i_time req)) then XMeta
+    if negb (is_some (i_mask oi)) && negb (is_some (i_mask req)) then XMeta     (* output.py 410-413 *)
+    else if negb (is_some (i_time oi)) && negb static && negb (is_some (i_time req)) then XMeta
     else
       let t := orelse (i_time oi) (i_time req) in
       match orelse (i_units oi) (i_units req) with
@@ -331,7 +341,7 @@ Fixpoint lookup_unit (u : unit_t) (tbl : list (unit_t * unit_t)) : option unit_t
   | [] => None
   | (a, b) :: r => if unit_eqb u a then Some b else lookup_unit u r
   end.
-Fixpoint add_time_dim (d : list Z) : list Z :=    (* convention: index 1 is [time] *)
+Definition add_time_dim (d : list Z) : list Z :=    (* convention: index 1 is [time] *)
   match d with
   | a :: b :: r => a :: (b + 1) :: r
   | _ => d
@@ -396,6 +406,10 @@ Definition a_resp (a : adapter) (req ini : info) : xres info :=
               if conflict then XMeta
               else
                 let omask := orelse om (i_mask req) in
+                (* _get_in_coords / _get_out_coords (regrid.py 123-143) index the data points with the
+                   raveled mask: IndexError when the sizes differ *)
+                if negb (mask_fits_size (i_mask ini) gi) || negb (mask_fits_size omask go) then XOther
+                else
                 (* in_info.copy_with(grid=output_grid, mask=output_mask), regrid.py 93 *)
                 if negb (info_consistent ini) then XMeta
                 else if negb (info_consistent (mkI None (Some go) omask None [])) then XMeta
@@ -404,25 +418,35 @@ Definition a_resp (a : adapter) (req ini : info) : xres info :=
         end
   end.
 
+(** error of one type re-typed *)
+Definition xerr {A B : Type} (r : xres A) : xres B :=
+  match r with XOk _ => XOther | XMeta => XMeta | XNoData => XNoData | XOther => XOther end.
+
 (** Adapter.get_info -> _get_info -> exchange_info -> source.get_info, for a chain of adapters listed
-    from the input towards the output. *)
-Fixpoint chain_get_info (chain : list adapter) (o : ostate) (req : info) : xres (ostate * info) :=
+    from the input towards the output.  The output state is returned in every case: when an adapter
+    refuses the delivered info, the output has already counted the exchange. *)
+Fixpoint chain_get_info (chain : list adapter) (o : ostate) (req : info) : ostate * xres info :=
   match chain with
-  | [] => out_get_info o req
+  | [] => match out_get_info o req with
+          | XOk (o', d) => (o', XOk d)
+          | e => (o, xerr e)
+          end
   | a :: rest =>
-      do up <- a_req a req;
-      do r <- chain_get_info rest o up;
-      do d <- a_resp a req (snd r);
-      XOk (fst r, d)
+      match a_req a req with
+      | XOk up => let '(o', r) := chain_get_info rest o up in
+                  (o', do ini <- r; a_resp a req ini)
+      | e => (o, xerr e)
+      end
   end.
 
-(** Input.exchange_info, input.py 165-217 *)
-Definition input_exchange (chain : list adapter) (o : ostate) (req : info) : xres (ostate * info) :=
-  do r <- chain_get_info chain o req;
-  do ok <- accepts req (snd r) false;
-  if negb ok then XMeta
-  else do ii <- merge (snd r) req;
-       XOk (fst r, ii).
+(** Input.exchange_info, input.py 165-217: the input's own acceptance check and the merge come after
+    the source has answered (and counted the exchange). *)
+Definition input_accept (req d : info) : xres info :=
+  do ok <- accepts req d false;
+  if negb ok then XMeta else merge d req.
+Definition input_exchange (chain : list adapter) (o : ostate) (req : info) : ostate * xres info :=
+  let '(o', r) := chain_get_info chain o req in
+  (o', do d <- r; input_accept req d).
 
 Record consumer : Type := mkC { c_chain : list adapter; c_info : info }.
 
@@ -432,13 +456,10 @@ Fixpoint run_all (o : ostate) (cs : list consumer) : ostate * xres (list info) :
   match cs with
   | [] => (o, XOk [])
   | c :: r =>
-      match input_exchange (c_chain c) o (c_info c) with
-      | XOk (o', ii) =>
-          let '(o'', res) := run_all o' r in
-          (o'', do l <- res; XOk (ii :: l))
-      | XMeta => (o, XMeta)
-      | XNoData => (o, XNoData)
-      | XOther => (o, XOther)
+      let '(o', res) := input_exchange (c_chain c) o (c_info c) in
+      match res with
+      | XOk ii => let '(o'', rr) := run_all o' r in (o'', do l <- rr; XOk (ii :: l))
+      | e => (o', xerr e)
       end
   end.
 
